@@ -361,12 +361,12 @@ Qed.
 
 (* ReadFrom: the reader is a script; every round grows by MinRead, hands the reader the whole spare capacity and
    takes what it delivered *)
-Lemma gen_buf_read_from : forall rup maxalloc nil (d sp : bytes) o l script,
+Lemma gen_buf_read_from : forall rup maxalloc nil eis (d sp : bytes) o l script,
   (forall c, c <= rup c) -> 0 <= o <= Z.of_nat (length d) ->
-  wview (bview_rf nil (Buffers.buf_read_from (d, sp) o l (fun _ => nil) (grow_slice_oracle rup maxalloc) tt script))
+  wview (bview_rf nil (Buffers.buf_read_from (d, sp) o l (fun _ => nil) (grow_slice_oracle rup maxalloc) eis tt script))
   = wview (cstep rup maxalloc (abs_pc nil ((d, sp), o, l)) (OReadFrom script)).
 Proof.
-  intros rup maxalloc nil d sp o l script Hrup Hwf.
+  intros rup maxalloc nil eis d sp o l script Hrup Hwf.
   unfold Buffers.buf_read_from, buf_read_from_ref, cstep. cbv zeta.
   change buf_grow_int_ref with Buffers.buf_grow_int || idtac.
   match goal with |- context [go_loop_b _ ?F _] => set (F' := F) end.
